@@ -182,6 +182,12 @@ def run1 : List String → String
     match chunk (intOr len) (intOr size) with
     | none => "panic"
     | some rs => showPairs rs
+  | ["chunkz", len, size] =>
+    -- Chunk on zero-size elements with an extreme length: the chunk lengths (few chunks: size ≥ 2^60)
+    if chunkN (intOr len) (intOr size) > 64 then "huge" else
+    match chunk (intOr len) (intOr size) with
+    | none => "panic"
+    | some rs => "lens=" ++ joinWith "," (rs.map fun r => toString (r.2 - r.1))
   | ["removeunordered", l, idx, n] => retArr (removeUnordered 0 (parseList l) (intOr idx) (intOr n))
   | ["reverse", l] =>
     match reverse (parseList l) with
